@@ -77,6 +77,7 @@ func (e *Eng) obligations() {
 	// ---- C07 / C05: stage 1 always sends the terminator; stage 2 failure drains the channel
 	fsi := e.fn("(*internalParsedJson).findStructuralIndices")
 	e.terminatorSend(fsi)
+	e.syncCapacity()
 	// pooled objects are reset before they are put back / after they are taken
 	e.poolDiscipline()
 
@@ -329,4 +330,57 @@ func (e *Eng) messageReaders() {
 	}
 	e.add("message#readers", "package", []string{"C16"}, len(bad) == 0 && n > 0,
 		fmt.Sprintf("%d loads of .Message; outside the allowed set: %s", n, strings.Join(uniq(bad), "; ")))
+}
+
+// syncCapacity: in the synchronous path (message not longer than the threshold) stage 1 runs to completion before
+// stage 2 starts, so everything it sends must fit into the channel: a buffer is only sent early when it holds at
+// least indexSizeWithSafetyBuffer-1 entries (kernel contract: early stop iff index >= indexSizeWithSafetyBuffer; at
+// most one entry is stripped), every entry consumes at least one byte, plus the last partial buffer and the terminator.
+func (e *Eng) syncCapacity() {
+	pm := e.fn("(*internalParsedJson).parseMessage")
+	if pm == nil {
+		return
+	}
+	props := []string{"C07", "C05"}
+	var threshold, capacity int64 = -1, -1
+	for _, b := range pm.Blocks {
+		for _, in := range b.Instrs {
+			switch x := in.(type) {
+			case *ssa.MakeChan:
+				if c, ok := x.Size.(*ssa.Const); ok && c.Value != nil {
+					capacity = c.Int64()
+				}
+			case *ssa.BinOp:
+				// len(pj.Message) > threshold
+				if c, ok := x.Y.(*ssa.Const); ok && c.Value != nil && (x.Op.String() == ">" || x.Op.String() == ">=") {
+					if call, ok := x.X.(*ssa.Call); ok {
+						if bi, ok := call.Call.Value.(*ssa.Builtin); ok && bi.Name() == "len" {
+							threshold = c.Int64()
+							if x.Op.String() == ">=" {
+								threshold--
+							}
+						}
+					}
+				}
+			}
+		}
+	}
+	konst := func(name string) int64 {
+		if c, ok := e.pkg.Members[name].(*ssa.NamedConst); ok && c.Value.Value != nil {
+			return c.Value.Int64()
+		}
+		return -1
+	}
+	safety := konst("indexSizeWithSafetyBuffer")
+	slots := konst("indexSlots")
+	if threshold < 0 || capacity < 0 || safety <= 1 || slots < 0 {
+		e.add("sync#channel-capacity", funcKey(pm), props, false, fmt.Sprintf("constants not found: threshold=%d capacity=%d safety=%d slots=%d", threshold, capacity, safety, slots))
+		return
+	}
+	sends := threshold/(safety-1) + 2
+	e.add("sync#channel-capacity", funcKey(pm), props, sends <= capacity,
+		fmt.Sprintf("messages up to %d bytes are parsed synchronously: at most %d/(%d-1)+2 = %d sends, channel capacity %d", threshold, threshold, safety, sends, capacity))
+	// ring safety: producer is at most capacity+1 buffers ahead of the consumer's current buffer; slots must exceed that
+	e.add("ring#slots-exceed-window", funcKey(pm), props, capacity+2 <= slots,
+		fmt.Sprintf("indexSlots=%d, channel capacity=%d: the producer may fill buffer n while the consumer still reads buffer n-capacity-1; needs capacity+2 <= slots", slots, capacity))
 }
